@@ -36,7 +36,7 @@ CHECKS["C30"] = dict(
                     env=dict(VERIF_ALPHABET="classes"))],
         thorough=[dict(mode="edges", spec="ChequeStoreGen.tla", cfg="ChequeStoreGenEdges.cfg", depth=5, name="edges-full",
                        env=dict(VERIF_ALPHABET="full"), timeout=900),
-                  dict(mode="sim", spec="ChequeStoreGen.tla", cfg="ChequeStoreGenSim.cfg", depth=5, num=2500, max=9000, name="seq5",
+                  dict(mode="sim", spec="ChequeStoreGen.tla", cfg="ChequeStoreGenSim.cfg", depth=5, num=2500, max=6000, name="seq5",
                        env=dict(VERIF_ALPHABET="classes")),
                   dict(mode="sim", spec="ChequeStoreGen.tla", cfg="ChequeStoreGenSim.cfg", depth=9, num=600, max=2500, name="seq9",
                        env=dict(VERIF_ALPHABET="classes"), salt=5)]),
@@ -172,7 +172,7 @@ def _c32_post(scs, seed, tier):
     rnd = random.Random(seed * 131 + 3)
     cand = [s for s in scs if _c32_contended(s)]
     rnd.shuffle(cand)
-    for s in cand[:(150 if tier == "thorough" else 12)]:
+    for s in cand[:(40 if tier == "thorough" else 12)]:
         s["par"] = dict(s.get("par", {}), racecheck=True)
     return scs
 
